@@ -460,3 +460,19 @@ func sortedKeys[V any](m map[string]V) []string {
 	sort.Strings(ks)
 	return ks
 }
+
+// sortOfGo: scalar sort of a basic Go type in this VC's mode (used by the replay generator).
+func (vc *VC) sortOfGo(t types.Type) *Sort {
+	b, ok := t.Underlying().(*types.Basic)
+	if !ok {
+		return nil
+	}
+	if b.Info()&types.IsInteger != 0 {
+		bits, signed := basicBits(b)
+		if vc.mode.BV {
+			return &Sort{K: SBV, Bits: bits, Signed: signed}
+		}
+		return &Sort{K: SInt, Bits: bits, Signed: signed}
+	}
+	return nil
+}
